@@ -146,8 +146,8 @@ fn watch_start(case_json: String) {
                 );
                 let path = dir.join(format!("C12-{:016x}.json", fnv64(body.as_bytes())));
                 let _ = std::fs::write(&path, body);
-                println!("violation C12/does-not-terminate: a distribution call did not return within 15 s (and not within 30 s when re-run)");
-                println!("VIOLATION property=C12 replay={}", path.display());
+                crate::outln!("violation C12/does-not-terminate: a distribution call did not return within 15 s (and not within 30 s when re-run)");
+                crate::outln!("VIOLATION property=C12 replay={}", path.display());
                 std::process::exit(1);
             }
         });
